@@ -102,15 +102,41 @@ class ScanForStart(Stream):
         import_freephil()
         from freephil import tokenizer
         self.tk = tokenizer
+        self._blank = {}
 
     def cases(self, rng, tier):
         for _ in range(4000 if tier == "quick" else 100000):
             yield "".join(rng.choice(self.FR) for _ in range(rng.randint(0, 12)))
+        # structured: whole directive lines with every kind of blank after the keyword (CR LF documents given as strings,
+        # form feeds, vertical tabs), between ordinary lines
+        tails = ["", " ", "\r", "\x0c", "\x0b", " \t", "\t\r", "x", " x", "\r\r", "\x1c", "\x85", "\xa0"]
+        for _ in range(1000 if tier == "quick" else 20000):
+            lines = []
+            for _ in range(rng.randint(1, 5)):
+                if rng.random() < 0.6:
+                    lines.append("#phil" + rng.choice([" ", "  ", "\t", ""]) + rng.choice(["__ON__", "__END__", "__OFF__", ""]) + rng.choice(tails))
+                else:
+                    lines.append(rng.choice(["a = 1", "", "x", "# c", " #phil __ON__", "b {"]) + rng.choice(["", "\r"]))
+            yield "\n".join(lines) + rng.choice(["", "\n"])
 
     def impl(self, case):
         ci = self.tk.character_iterator(case)
         r = ci.scan_for_start(intro="#phil", followups=["__END__", "__ON__"])
+        self._blank[case] = self.scan(self.blanked(case))
         return [str(len(case) - ci.i_char), str(ci.line_number), str(r)]
+
+    @staticmethod
+    def blanked(text):
+        """the same text with every blank character other than the newline spelt as a space"""
+        return "".join(" " if (c.isspace() and c != "\n") else c for c in text)
+
+    def scan(self, text):
+        ci = self.tk.character_iterator(text)
+        try:
+            r = ci.scan_for_start(intro="#phil", followups=["__END__", "__ON__"])
+        except Exception as e:  # noqa
+            return ["raised", type(e).__name__]
+        return [str(len(text) - ci.i_char), str(ci.line_number), str(r)]
 
     def requests(self, case, o):
         return [("sfs", case)]
@@ -121,6 +147,10 @@ class ScanForStart(Stream):
     def prop(self, case, o):
         if len(o) != 3:
             return "scan_for_start raised %s" % (o[1:],)
+        # layout: which blank characters (space, tab, CR, form feed, ...) stand in a line never matters
+        b = self._blank.pop(case, None)
+        if b is not None and b != list(o):
+            return "scan_for_start gives (rest, line, found) = %s, with every blank spelt as a space %s" % (list(o), b)
         # the scanner's line counter equals 1 + newlines consumed (C15's statement for this function)
         consumed = case[: len(case) - int(o[0])]
         if int(o[1]) != 1 + consumed.count("\n"):
